@@ -237,7 +237,7 @@ def seq_shards(ctx):
 
 
 # ------------------------------------------------------------------ entry points (one call in checks/c19.py, one in checks/c16.py)
-def run(ctx, relpath, what, sequential=False):
+def run(ctx, relpaths, what, sequential=False):
     """Regenerate + compile + theorem file + replay shards, all under the lock.  Returns True iff the source translates and the
     generated file compiles."""
     ctx.trusted += ["tools/gen_c19.py (fail-closed translator of the control flow of check_for_loopcarried_dep into a function over an "
@@ -249,7 +249,8 @@ def run(ctx, relpath, what, sequential=False):
     with locked():
         waited = time.time() - t
         gen_ok = regenerate(ctx)
-        theorems(ctx, gen_ok, relpath)
+        for relpath in ([relpaths] if isinstance(relpaths, str) else relpaths):
+            theorems(ctx, gen_ok, relpath)
         if gen_ok:
             replay_shards(ctx, what)
             if sequential:
